@@ -19,9 +19,10 @@ ASSUMPTIONS = [
     "isstdlibtype / isstructuredtype are total predicates (C17); inspection.args / get_type_hints deliver the generic arguments "
     "and the ordered field hints (external: typing).",
     "Domain: member annotations are types, not unresolved ForwardRef objects (get_type_hints resolves them).",
-    "The relational clause (string / ForwardRef inputs: proved by the wiring obligations; NewType / value-alias / memoised inputs "
-    "give the same sequence up to the root label) is replayed by the twin on every topology (bounded), not proved: it is a "
-    "two-run property of the loop.",
+    "The relational clause: string / ForwardRef inputs are proved by the wiring obligations; for NewType / value-alias roots the step is "
+    "proved as root-label independence (an SMT lemma over the unwrap contract: the visited test does not depend on whether the root label "
+    "is in the set; plus a dataflow scan: `visited` is read only through that test and the root annotation only builds the root node) and "
+    "the simulation argument that combines them is on paper; memoised inputs are C12's cache contract. All of it is replayed by the twin (bounded).",
 ]
 
 
